@@ -43,6 +43,8 @@ excerpt_as_bigint = Fn(F, "excerpt_as_bigint", slot="syntax", ret="res", props=[
         C("size_is_digits_times_bits_per_digit",
           "res is Ok ==> res->Ok_0.size == lit_size(radix_of(excerpt@).0, lit_digits(excerpt@, radix_of(excerpt@).1, excerpt@.len() as int))", ["C05"]),
         C("at_least_one_digit", "res is Ok ==> lit_digits(excerpt@, radix_of(excerpt@).1, excerpt@.len() as int) >= 1", ["C05"]),
+        C("rejects_only_bad_digits_or_no_digit", "res is Err ==> !all_digits(excerpt@, radix_of(excerpt@).1, excerpt@.len() as int, radix_of(excerpt@).0)"
+                   " || lit_digits(excerpt@, radix_of(excerpt@).1, excerpt@.len() as int) == 0", ["C05", "C16"]),
     ],
     rewrites=[R16],
     loops={1: Loop(invariant=[
